@@ -125,10 +125,22 @@ pub fn dump<F: Read + Seek>(cf: &mut cfb::CompoundFile<F>, dict: &Dict, full: bo
 pub fn reopen_dump(bytes: &[u8], strict: bool, dict: &Dict) -> Value {
     let cur = std::io::Cursor::new(bytes.to_vec());
     let r = std::panic::catch_unwind(std::panic::AssertUnwindSafe(|| {
+        // every spelling of "open strictly" / "open permissively" the API offers, in turn: they must mean the same
+        static SPELLING: std::sync::atomic::AtomicUsize = std::sync::atomic::AtomicUsize::new(0);
+        let k = SPELLING.fetch_add(1, std::sync::atomic::Ordering::Relaxed);
         let opened = if strict {
-            cfb::CompoundFile::open_strict(cur)
+            match k % 4 {
+                0 => cfb::CompoundFile::open_strict(cur),
+                1 => cfb::OpenOptions::new().strict().open_with(cur),
+                2 => cfb::OpenOptions::new().strict().max_buffer_size(4096).open_with(cur),
+                _ => cfb::OpenOptions::new().max_buffer_size(4096).strict().open_with(cur),
+            }
         } else {
-            cfb::CompoundFile::open(cur)
+            match k % 3 {
+                0 => cfb::CompoundFile::open(cur),
+                1 => cfb::OpenOptions::new().open_with(cur),
+                _ => cfb::OpenOptions::new().max_buffer_size(2048).open_with(cur),
+            }
         };
         match opened {
             Err(e) => json!({"err": err_kind(&e), "msg": e.to_string()}),
